@@ -83,6 +83,49 @@ pub fn shape_bind(thorough: bool) -> Report {
                 }
             }
         }
+        // many-point evaluators: one value per variable (eval_with_vars) and one array per variable (eval_with_var_arrays)
+        for supply in 0..3 {
+            for m in &mats {
+                let idx: Vec<usize> = match supply { 0 => vec![0, 1, 2], 1 => vec![2, 1, 0], _ => vec![1, 0, 2] };
+                let mut sv = ShapeVars::new();
+                let mut sa: ShapeVars<Vec<f32>> = ShapeVars::new();
+                if supply == 2 { sv.insert(extra.index().unwrap(), 12345.0f32); sa.insert(extra.index().unwrap(), vec![7.0f32; pos.len()]); }
+                for &k in &idx {
+                    sv.insert(vars[k].index().unwrap(), vv[k]);
+                    sa.insert(vars[k].index().unwrap(), (0..pos.len()).map(|q| vv[k] + q as f32).collect());
+                }
+                let xs: Vec<f32> = pos.iter().map(|p| p.0).collect();
+                let ys: Vec<f32> = pos.iter().map(|p| p.1).collect();
+                let zs: Vec<f32> = pos.iter().map(|p| p.2).collect();
+                let tp: Vec<(f32, f32, f32)> = pos.iter().map(|&(x, y, z)| match m { None => (x, y, z), Some(m) => { let p = m.transform_point(&nalgebra::Point3::new(x, y, z)); (p.x, p.y, p.z) } }).collect();
+                let expect_v: Vec<f32> = tp.iter().map(|&(tx, ty, tz)| want(order, &[tx, ty, tz, vv[0], vv[1], vv[2]])).collect();
+                let expect_a: Vec<f32> = tp.iter().enumerate().map(|(q, &(tx, ty, tz))| want(order, &[tx, ty, tz, vv[0] + q as f32, vv[1] + q as f32, vv[2] + q as f32])).collect();
+                for backend in 0..2 {
+                    r.cases += 2;
+                    let (got_v, got_a): (Result<Vec<f32>, String>, Result<Vec<f32>, String>) = if backend == 0 {
+                        let t = vm.ez_float_slice_tape();
+                        let mut e = VmShape::new_float_slice_eval();
+                        let a = match m { None => e.eval_with_vars(&t, &xs, &ys, &zs, &sv).map(|v| v.to_vec()), Some(m) => e.eval_with_transform_and_vars(&t, &xs, &ys, &zs, m, &sv).map(|v| v.to_vec()) }.map_err(|e| format!("{e:?}"));
+                        let b = match m { None => e.eval_with_var_arrays(&t, &xs, &ys, &zs, &sa).map(|v| v.to_vec()), Some(m) => e.eval_with_transform_and_var_arrays(&t, &xs, &ys, &zs, m, &sa).map(|v| v.to_vec()) }.map_err(|e| format!("{e:?}"));
+                        (a, b)
+                    } else {
+                        let t = jit.ez_float_slice_tape();
+                        let mut e = JitShape::new_float_slice_eval();
+                        let a = match m { None => e.eval_with_vars(&t, &xs, &ys, &zs, &sv).map(|v| v.to_vec()), Some(m) => e.eval_with_transform_and_vars(&t, &xs, &ys, &zs, m, &sv).map(|v| v.to_vec()) }.map_err(|e| format!("{e:?}"));
+                        let b = match m { None => e.eval_with_var_arrays(&t, &xs, &ys, &zs, &sa).map(|v| v.to_vec()), Some(m) => e.eval_with_transform_and_var_arrays(&t, &xs, &ys, &zs, m, &sa).map(|v| v.to_vec()) }.map_err(|e| format!("{e:?}"));
+                        (a, b)
+                    };
+                    for (kind, got, expect) in [("eval_with_vars", &got_v, &expect_v), ("eval_with_var_arrays", &got_a, &expect_a)] {
+                        let ok = matches!(got, Ok(g) if g.len() == expect.len() && g.iter().zip(expect.iter()).all(|(a, b)| a.to_bits() == b.to_bits()));
+                        if !ok {
+                            r.fail(format!("bind-bulk:{kind}:{order:?}:supply{supply}:backend{backend}:{}", m.is_some()),
+                                   format!("[binding] many-point {kind} of the shape over leaves {order:?} (supply order {supply}, transform {}) on back end {backend} gives {:?}, the variables bound by identity give {:?}", m.is_some(), got, expect),
+                                   json!({"contract":"shape_bind"}));
+                        }
+                    }
+                }
+            }
+        }
         // a missing variable is an error (when the shape uses a free variable)
         if let Some(&k) = order.iter().find(|&&k| k >= 3) {
             r.cases += 1;
@@ -93,9 +136,15 @@ pub fn shape_bind(thorough: bool) -> Report {
             if e.eval_with_vars(&t, 1.0f32, 2.0, 3.0, &sv).is_ok() {
                 r.fail(format!("missing:{order:?}"), format!("[binding] variable {} is not supplied but evaluation succeeded", k - 3), json!({"contract":"shape_bind"}));
             }
+            r.cases += 1;
+            let tb = vm.ez_float_slice_tape();
+            let mut eb = VmShape::new_float_slice_eval();
+            if eb.eval_with_vars(&tb, &[1.0f32, 2.0], &[2.0f32, 3.0], &[3.0f32, 4.0], &sv).is_ok() {
+                r.fail(format!("missing-bulk:{order:?}"), format!("[binding] variable {} is not supplied but many-point evaluation succeeded", k - 3), json!({"contract":"shape_bind"}));
+            }
         }
     }
-    r.space = format!("{} shapes over subsets/permutations of {{x, y, z, v0, v1, v2}} (weighted sums, first-encounter order = permutation) x 3 supply orders of the variable values (one with an extra unused variable) x 3 positions x {{no transform, translation, non-uniform scaling}} x {{VM, JIT}} point evaluators: bit-identical to the weighted sum of the identically named values at the transformed position; a missing variable is an error", orders.len());
+    r.space = format!("{} shapes over subsets/permutations of {{x, y, z, v0, v1, v2}} (weighted sums, first-encounter order = permutation) x 3 supply orders of the variable values (one with an extra unused variable) x 3 positions x {{no transform, translation, non-uniform scaling}} x {{VM, JIT}} point evaluators, and the same shapes through the many-point evaluators with one value per variable (eval_with_vars) and one array per variable (eval_with_var_arrays): bit-identical to the weighted sum of the identically named values at the transformed position; a missing variable is an error", orders.len());
     r.distinct = r.cases;
     r.exhaustive = true;
     r.sample(json!({"leaves":"[v2, x, v0]","supply":"v1 first","expected":"0.01*v2 + 1000*x + 1*v0"}));
